@@ -56,7 +56,7 @@ func runWatched(slot string, c *sem.Case, k int, f func() sem.ImplOut) sem.ImplO
 
 func run(c *sem.Case, k int) sem.ImplOut {
 	if c.V2 {
-		var sig *probe.Sig = &probe.Sig{FireAt: k}
+		var sig *probe.Sig = &probe.Sig{FireAt: k, RaiseAtRec: c.RaiseAtRec}
 		return sem.RunV2(c, sig)
 	}
 	return sem.RunV1(c, k)
@@ -109,7 +109,11 @@ func checkAt(t rk.Failer, slot string, c *sem.Case, k int, full []probe.Rec, inf
 	if o.Polls < k && infinite {
 		rk.Fail(t, slot, rp, "%s: non-terminating program returned after %d polls without the signal (k=%d)\nscript:\n%s", who, o.Polls, k, c.Texts[c.Root])
 	}
-	if ok, why := isPrefix(o.Trace, full); !ok {
+	cmpTrace := o.Trace
+	if infinite && len(cmpTrace) > len(full) {
+		cmpTrace = cmpTrace[:len(full)] // the reference of a non-terminating program ends where the model's fuel ended
+	}
+	if ok, why := isPrefix(cmpTrace, full); !ok {
 		rk.Fail(t, slot, rp, "%s: effects of the cancelled run (signal at poll %d) are not a prefix of the uninterrupted run: %s\nscript:\n%s", who, k, why, c.Texts[c.Root])
 	}
 	return len(o.Trace) > 0 && len(o.Trace) < len(full)
@@ -213,6 +217,130 @@ func infinitePrograms() []struct {
 	}
 }
 
+// TestRaisedDuringBuiltin: the host raises the flag while a builtin (the n-th probe call) is executing - between two
+// polls, at any distance from the start of the run. The run returns without error after at most the statement in
+// progress: in these programs every simple statement holds at most one probe call, so no probe call may follow.
+func TestRaisedDuringBuiltin(t *testing.T) {
+	inc := func(n string) *gen.Node { return gen.NSet(n, gen.NBin("+", id(n), gen.NInt(1))) }
+	warm := func(w int64) *gen.Node {
+		return gen.NFor(gen.NSet("i", gen.NInt(0)), gen.NBin("<", id("i"), gen.NInt(w)), inc("i"), []*gen.Node{gen.NSet("x", id("i"))})
+	}
+	type prog struct {
+		name    string
+		scripts map[string][]*gen.Node
+		v2ok    bool
+		at      []int
+	}
+	far := []int{1, 2, 3, 10, 100, 2047, 2048, 2049, 2050, 3001, 4095, 4096, 4097, 5001, 5002, 5003, 5007, 8191, 8193, 20011, 65537}
+	progs := []prog{
+		{"counting", map[string][]*gen.Node{"main.p": {gen.NSet("n", gen.NInt(0)), gen.NFor(nil, nil, nil, []*gen.Node{inc("n"), gen.NCall("probe", gen.NStr("it"), id("n"))})}}, true, far},
+		{"probe-only", map[string][]*gen.Node{"main.p": {gen.NFor(nil, nil, nil, []*gen.Node{gen.NCall("probe", gen.NStr("tock"))})}}, true, far},
+		{"three-clause", map[string][]*gen.Node{"main.p": {gen.NFor(gen.NSet("n", gen.NInt(0)), gen.NBin(">=", id("n"), gen.NInt(0)), inc("n"), []*gen.Node{gen.NCall("probe", gen.NStr("it"), id("n")), gen.NSet("y", id("n"))})}}, true, far},
+		{"for-in-inside", map[string][]*gen.Node{"main.p": {gen.NFor(nil, nil, nil, []*gen.Node{gen.NForIn("e", gen.NList(gen.NInt(1), gen.NInt(2), gen.NInt(3)), []*gen.Node{gen.NCall("probe", gen.NStr("e"), id("e"))})})}}, true, far},
+		{"in-callee", map[string][]*gen.Node{"main.p": {gen.NCall("probe", gen.NStr("before")), gen.NCall("use", gen.NStr("s1.p")), gen.NCall("probe", gen.NStr("after"))},
+			"s1.p": {gen.NSet("n", gen.NInt(0)), gen.NFor(nil, nil, nil, []*gen.Node{inc("n"), gen.NCall("probe", gen.NStr("callee"), id("n"))})}}, false, far},
+	}
+	for _, w := range []int64{0, 10, 1000, 3000, 5000, 9000} {
+		// a caller that has been running for a while, then a callee in which the flag is raised, then three more statements
+		progs = append(progs, prog{fmt.Sprintf("warm-%d-then-callee", w), map[string][]*gen.Node{
+			"main.p": {warm(w), gen.NCall("use", gen.NStr("s1.p")), gen.NCall("probe", gen.NStr("t1")), gen.NCall("probe", gen.NStr("t2")), gen.NCall("probe", gen.NStr("t3"))},
+			"s1.p":   {gen.NCall("probe", gen.NStr("in-callee")), gen.NSet("z", gen.NInt(1))}}, false, []int{1}})
+		progs = append(progs, prog{fmt.Sprintf("warm-%d-then-statements", w), map[string][]*gen.Node{
+			"main.p": {warm(w), gen.NCall("probe", gen.NStr("t1")), gen.NCall("probe", gen.NStr("t2")), gen.NCall("probe", gen.NStr("t3"))}}, true, []int{1, 2}})
+	}
+	n := 0
+	for _, p := range progs {
+		for _, v2 := range []bool{false, true} {
+			if v2 && !p.v2ok {
+				continue
+			}
+			for ai, at := range p.at {
+				if (ai+n)%evid.NShards() != evid.Shard() && len(p.at) > 2 {
+					continue
+				}
+				c := &sem.Case{Scripts: map[string][]*gen.Node{}, Root: "main.p", Meas: "m", V2: v2, RaiseAtRec: at}
+				for k, sc := range p.scripts {
+					c.Scripts[k] = gen.FixAll(gen.CloneProg(sc))
+				}
+				c.Print(nil)
+				who := map[bool]string{false: "v1", true: "v2"}[v2]
+				slot := fmt.Sprintf("raise-%s-%s", p.name, who)
+				o := runWatched(slot, c, 0, func() sem.ImplOut { return run(c, 0) })
+				rp := replay{c.Replay(fmt.Sprintf("flag raised during probe call %d", at)), -at}
+				switch {
+				case o.Crash != nil:
+					rk.Fail(t, slot, rp, "%s: run crashed: %s", who, o.Crash.Value)
+				case len(o.LoadErrs) > 0:
+					rk.Fail(t, slot, rp, "harness: %v", o.LoadErrs)
+				case o.Aborted:
+					rk.Fail(t, slot, rp, "%s: the run kept executing after the flag was raised during probe call %d (100 probe calls later it was still running)\nscript:\n%s", who, at, c.Texts[c.Root])
+				case o.Err != nil:
+					rk.Fail(t, slot, rp, "%s: cancelled run returned an error: %v", who, o.Err)
+				case len(o.Trace) >= at && o.AfterRaise > 0:
+					rk.Fail(t, slot, rp, "%s: %d probe call(s) executed after the flag was raised during probe call %d (each statement holds one probe call: at most the statement in progress may finish)\nlast records: %v\nscript:\n%s", who, o.AfterRaise, at, o.Trace[len(o.Trace)-min(len(o.Trace), 4):], c.Texts[c.Root])
+				}
+				evid.Case(fmt.Sprintf("%s/%d", slot, at), true, "raised-during-builtin/"+who)
+				n++
+			}
+		}
+	}
+	evid.Exhaustive("programs x interpreter x probe call during which the flag is raised (up to call 65537)", n)
+}
+
+// TestOrderDependentPrograms: loops over a map that the body itself grows (which keys are visited is unspecified, so
+// there is no single uninterrupted trace to compare with) and long runs interrupted at high poll indices: the
+// order-free part of the oracle applies - no probe call after the signal was observed, no error, termination.
+func TestOrderDependentPrograms(t *testing.T) {
+	grow := func(first *gen.Node) []*gen.Node {
+		return []*gen.Node{gen.NSet("m", gen.NMap(gen.NStr("a"), gen.NInt(1), gen.NStr("b"), gen.NInt(2))), gen.NSet("n", gen.NInt(0)),
+			gen.NForIn("k", id("m"), []*gen.Node{first,
+				gen.NAssign("=", []*gen.Node{gen.NIndex(id("m"), gen.NBin("+", id("k"), gen.NStr("x")))}, []*gen.Node{gen.NInt(1)}),
+				gen.NSet("n", gen.NBin("+", id("n"), gen.NInt(1))),
+				gen.NIf([]*gen.Node{gen.NBin(">", id("n"), gen.NInt(12))}, [][]*gen.Node{{gen.NBreak()}}, nil, false),
+				gen.NCall("probe", gen.NStr("end-of-pass"))}),
+			gen.NCall("probe", gen.NStr("after"))}
+	}
+	progs := map[string][]*gen.Node{
+		"grow-probe-first":  grow(gen.NCall("probe", gen.NStr("pass"), id("k"))),
+		"grow-assign-first": grow(gen.NSet("z", gen.NCall("pval", id("k")))),
+		"nested-grow": {gen.NSet("m", gen.NMap(gen.NStr("a"), gen.NInt(1))), gen.NSet("n", gen.NInt(0)), gen.NForIn("o", gen.NList(gen.NInt(1), gen.NInt(2)), []*gen.Node{
+			gen.NForIn("k", id("m"), []*gen.Node{gen.NCall("probe", gen.NStr("pass"), id("o")), gen.NAssign("=", []*gen.Node{gen.NIndex(id("m"), gen.NBin("+", id("k"), gen.NStr("y")))}, []*gen.Node{id("o")}),
+				gen.NSet("n", gen.NBin("+", id("n"), gen.NInt(1))), gen.NIf([]*gen.Node{gen.NBin(">", id("n"), gen.NInt(10))}, [][]*gen.Node{{gen.NBreak()}}, nil, false)})})},
+	}
+	n := 0
+	for name, p := range progs {
+		for _, v2 := range []bool{false, true} {
+			c := &sem.Case{Scripts: map[string][]*gen.Node{"main.p": gen.FixAll(gen.CloneProg(p))}, Root: "main.p", Meas: "m", V2: v2}
+			c.Print(nil)
+			who := map[bool]string{false: "v1", true: "v2"}[v2]
+			slot := "orderfree-" + name + "-" + who
+			for rep := 0; rep < evid.Scale(6, 30); rep++ {
+				for k := 1; k <= 70; k++ {
+					o := runWatched(slot, c, k, func() sem.ImplOut { return run(c, k) })
+					rp := replay{c.Replay(""), k}
+					if o.Crash != nil || len(o.LoadErrs) > 0 {
+						rk.Fail(t, slot, rp, "%s: %v %v\nscript:\n%s", who, o.Crash, o.LoadErrs, c.Texts[c.Root])
+					}
+					if o.Aborted {
+						rk.Fail(t, slot, rp, "%s: the run kept executing after the signal fired at poll %d\nscript:\n%s", who, k, c.Texts[c.Root])
+					}
+					for i, r := range o.Trace {
+						if r.Fired {
+							rk.Fail(t, slot, rp, "%s: probe %s (record %d) executed after the signal was observed true at poll %d\nscript:\n%s", who, r, i, k, c.Texts[c.Root])
+						}
+					}
+					if o.Polls >= k && o.Err != nil {
+						rk.Fail(t, slot, rp, "%s: cancelled run returned an error: %v", who, o.Err)
+					}
+					n++
+				}
+			}
+			evid.Case(slot, true, "order-dependent/"+who)
+		}
+	}
+	evid.LabelN("order-dependent-runs", n)
+}
+
 func TestNonTerminatingPrograms(t *testing.T) {
 	n := 0
 	for _, ip := range infinitePrograms() {
@@ -236,7 +364,13 @@ func TestNonTerminatingPrograms(t *testing.T) {
 			}
 			slot := fmt.Sprintf("inf-%s-%v", ip.name, v2)
 			kmax := evid.Scale(60, 200)
+			ks := []int{}
 			for k := 1; k <= kmax; k++ {
+				ks = append(ks, k)
+			}
+			// far into the run: around powers of two and a few primes (a poll counter, a stride, a cache size)
+			ks = append(ks, 255, 256, 257, 1023, 1024, 1025, 4095, 4096, 4097, 4099, 5003, 8191, 8192, 8193, 16411, 40009)
+			for _, k := range ks {
 				checkAt(t, slot, c, k, m.Trace, true)
 				evid.Case(fmt.Sprintf("%s/%d", slot, k), true, map[bool]string{false: "nonterminating-v1", true: "nonterminating-v2"}[v2])
 				n++
@@ -267,6 +401,16 @@ func TestReplays(t *testing.T) {
 			c, err := sem.FromReplay(r.Case.Replay)
 			if err != nil {
 				t.Skipf("replay not loadable: %v", err)
+			}
+			if r.Case.K < 0 {
+				// the flag is raised during probe call -K
+				c.RaiseAtRec = -r.Case.K
+				o := runWatched("replay", c, 0, func() sem.ImplOut { return run(c, 0) })
+				if o.Crash != nil || o.Aborted || o.Err != nil || (len(o.Trace) >= c.RaiseAtRec && o.AfterRaise > 0) {
+					rk.Fail(t, "replay", r.Case, "flag raised during probe call %d: crash=%v aborted=%v err=%v probe calls after the raise=%d", c.RaiseAtRec, o.Crash, o.Aborted, o.Err, o.AfterRaise)
+				}
+				evid.Case(fmt.Sprint("replay:", c.Texts[c.Root], r.Case.K), true, "replay")
+				return
 			}
 			m := sem.RunModel(c, map[string]int{}, nil)
 			infinite := m.Discard == model.ErrFuel
